@@ -1,9 +1,11 @@
 package main
 
 import (
+	"fmt"
 	"go/ast"
 	"go/token"
 	"go/types"
+	"os"
 	"reflect"
 	"sort"
 	"strings"
@@ -204,6 +206,10 @@ func canonStr(info *types.Info, e ast.Node) string {
 					sb.WriteString(r)
 					return
 				}
+				if r := typeRole(o); r != "" {
+					sb.WriteString(r)
+					return
+				}
 			}
 			sb.WriteString(x.Name)
 		case *ast.SelectorExpr:
@@ -373,7 +379,7 @@ func runC01(c *Ctx) {
 		okThanos := false
 		for _, e := range errorExits(p, pgr) {
 			g := guardText(e)
-			if strings.Contains(g, `"partial_response_strategy"`) && strings.Contains(g, "schema != ThanosSchema") {
+			if strings.Contains(g, `"partial_response_strategy"`) && strings.Contains(g, "«Schema» != ThanosSchema") {
 				okThanos = true
 			}
 		}
@@ -419,10 +425,14 @@ func runC01(c *Ctx) {
 	vsm := p.Func("internal/parser.validateStringMap")
 	reasons := []reason{
 		{"top level is not a mapping", pg, has("!(isTag(", "mapTag)"), "cannot unmarshal into rulefmt.RuleGroups"},
-		{"duplicated top level key", pg, func(g string) bool { return g == "flag" || g == "!(flag) && init:set[entry.key.Value]" || g == "flag && init:set[entry.key.Value]" }, "yaml: mapping key already defined"},
+		{"duplicated top level key", pg, func(g string) bool {
+			return g == "flag" || g == "!(flag) && init:set[entry.key.Value]" || g == "flag && init:set[entry.key.Value]"
+		}, "yaml: mapping key already defined"},
 		{"groups is not a list", pg, has("!(isTag(", "seqTag)"), "cannot unmarshal into []RuleGroup"},
 		{"repeated group name", pg, func(g string) bool { return strings.Contains(g, "init:set[") && strings.Contains(g, ".Name]") }, "groupname is repeated in the same file"},
-		{"group is not a mapping", pgr, func(g string) bool { return strings.Contains(g, "!(isTag(") && strings.Contains(g, ".ShortTag(), mapTag))") && !strings.Contains(g, "entry.") }, "cannot unmarshal into RuleGroup"},
+		{"group is not a mapping", pgr, func(g string) bool {
+			return strings.Contains(g, "!(isTag(") && strings.Contains(g, ".ShortTag(), mapTag))") && !strings.Contains(g, "entry.")
+		}, "cannot unmarshal into RuleGroup"},
 		{"group name is not a string", pgr, has(`"name"`, "strTag"), "cannot unmarshal into string"},
 		{"group name is empty", pgr, has(`"name"`, `.Value == ""`), "Groupname must not be empty"},
 		{"group without a name (any group)", pgr, func(g string) bool {
@@ -440,7 +450,9 @@ func runC01(c *Ctx) {
 		{"group label value invalid", pgr, has(`"labels"`, "LabelValue(", ".IsValid()"), "invalid label value"},
 		{"group rules is not a list", pgr, has(`"rules"`, "seqTag"), "cannot unmarshal into []Rule"},
 		{"duplicated group key", pgr, has("init:set[entry.key.Value]"), "yaml: mapping key already defined"},
-		{"rule is not a mapping", prs, func(g string) bool { return strings.Contains(g, "!(isTag(") && strings.Contains(g, ".ShortTag(), mapTag))") && !strings.Contains(g, "entry.") }, "cannot unmarshal into Rule"},
+		{"rule is not a mapping", prs, func(g string) bool {
+			return strings.Contains(g, "!(isTag(") && strings.Contains(g, ".ShortTag(), mapTag))") && !strings.Contains(g, "entry.")
+		}, "cannot unmarshal into Rule"},
 		{"rule with neither record nor alert (no key at all)", prs, func(g string) bool { return g == "flag" }, "one of 'record' or 'alert' must be set"},
 		{"both record and alert", pr, has("recordPart != nil", "alertPart != nil"), "only one of 'record' and 'alert' must be set"},
 		{"expr without record or alert", pr, has("exprPart != nil", "alertPart == nil", "recordPart == nil"), "one of 'record' or 'alert' must be set"},
@@ -452,7 +464,9 @@ func runC01(c *Ctx) {
 		{"labels/annotations is not a mapping", pr, has("!(isTag(entry.part.ShortTag(), mapTag))"), "cannot unmarshal into map[string]string"},
 		{"rule labels: non-string value or duplicated key", pr, has("!(flag)", "init:validateStringMap("), "yaml: mapping key already defined / cannot unmarshal"},
 		{"invalid recording rule name", pr, has("IsValidMetricName("), "invalid recording rule name"},
-		{"braces in recording rule name", pr, func(g string) bool { return strings.Contains(g, "recordPart") && (strings.Contains(g, `"{}"`) || strings.Contains(g, `"{"`)) }, "braces present in the recording rule name"},
+		{"braces in recording rule name", pr, func(g string) bool {
+			return strings.Contains(g, "recordPart") && (strings.Contains(g, `"{}"`) || strings.Contains(g, `"{"`))
+		}, "braces present in the recording rule name"},
 		{"invalid rule label name (incl. __name__)", pr, has("LabelName(lab.Key.Value).IsValid()", "MetricNameLabel"), "invalid label name"},
 		{"invalid rule label value", pr, has("LabelValue(lab.Value.Value).IsValid()"), "invalid label value"},
 		{"invalid annotation name", pr, has("LabelName(ann.Key.Value).IsValid()"), "invalid annotation name"},
@@ -471,6 +485,16 @@ func runC01(c *Ctx) {
 		)
 	}
 	exitCache := map[*FuncInfo][]errorExit{}
+	if os.Getenv("PINTSA_DUMP_GUARDS") != "" {
+		for _, fi := range []*FuncInfo{pg, pgr, prs, pr, ens, vsm, p.Func("internal/parser.Parser.Parse")} {
+			if fi == nil {
+				continue
+			}
+			for _, e := range errorExits(p, fi) {
+				fmt.Fprintf(os.Stderr, "GUARD %s | %s\n", fi.Obj.Name(), guardText(e))
+			}
+		}
+	}
 	for _, r := range reasons {
 		if r.fn == nil {
 			c.Undecided("C01-R2", "reason:"+r.prom, token.NoPos, "pint-side function not found")
@@ -493,7 +517,7 @@ func runC01(c *Ctx) {
 	nDup := 0
 	for _, e := range errorExits(p, pr) {
 		g := guardText(e)
-		if strings.Contains(g, "Part != nil") && strings.Contains(g, "key.Value ==") {
+		if strings.Contains(g, "Part != nil") && strings.Contains(g, "«Node».Value ==") {
 			nDup++
 		}
 	}
@@ -534,19 +558,20 @@ func runC01(c *Ctx) {
 		multi := false
 		for _, e := range errorExits(p, parse) {
 			g := guardText(e)
-			if strings.Contains(g, "index > 1") && strings.Contains(g, "isStrict") {
+			if strings.Contains(g, "int > 1") && strings.Contains(g, "isStrict") {
 				multi = true
 			}
 		}
 		c.Check(multi, "C01-R5", "Parse:multi-document files rejected in strict mode", parse.Decl.Pos(), "index > 1 && isStrict -> error", "a second YAML document is accepted in strict mode (Prometheus silently ignores it: rules in it are never loaded)")
 		decodeErr := false
 		for _, e := range errorExits(p, parse) {
-			if strings.Contains(guardText(e), "decodeErr != nil") {
+			if strings.Contains(guardText(e), "err != nil") {
 				decodeErr = true
 			}
 		}
 		c.Check(decodeErr, "C01-R2", "reason:yaml syntax error", parse.Decl.Pos(), "decode error -> File.Error", "a YAML decode error is not turned into File.Error")
 	}
+	c01Schema(c)
 	for _, cs := range p.CallersOf(prs.Obj) {
 		c.Check(cs.Caller.Name == "internal/parser.parseGroup", "C01-R5", "parseRuleStrict called from "+cs.Caller.Name, cs.Call.Pos(), "only the strict group walker", "unexpected caller")
 	}
@@ -756,6 +781,9 @@ func c01Checks(c *Ctx) {
 		finfo := fi.Pkg.TypesInfo
 		fpm := parentMap(fi.Decl.Body)
 		ok, detail := false, "no matching problem"
+		saved := canonInfo
+		canonInfo = finfo
+		defer func() { canonInfo = saved }()
 		for _, cl := range compositeLits(finfo, fi.Decl.Body, "internal/checks.Problem") {
 			g := guardText(errorExit{guards: lexicalGuards(fpm, cl, fi.Decl.Body)})
 			if !strings.Contains(g, guardSub) {
@@ -853,7 +881,7 @@ func c01Checks(c *Ctx) {
 			g := lexicalGuards(fpm, call, rs)
 			extra := ""
 			for _, a := range g {
-				if _, isInit := a.E.(*ast.BinaryExpr); isInit && strings.Contains(exprStr(a.E), "err") {
+				if _, isInit := a.E.(*ast.BinaryExpr); isInit && strings.Contains(canonStr(finfo, a.E), "err") {
 					continue
 				}
 				extra = exprStr(a.E)
@@ -866,4 +894,60 @@ func c01Checks(c *Ctx) {
 		ok, d := sevAtLeastBug(tc, "err != nil")
 		c.Check(ok, "C01-R4", "alerts/template:template parse error reported >= Bug", tc.Decl.Pos(), d, "a template parse error is not reported with severity >= Bug ("+d+")")
 	}
+}
+
+// c01Schema: the Thanos schema (which accepts partial_response_strategy, a key
+// Prometheus rejects) is selected only when the configured word equals
+// config.SchemaThanos; everything else, including the empty default, selects
+// the Prometheus schema.
+func c01Schema(c *Ctx) {
+	fi := c.MustFunc("C01-R5", "cmd/pint.parseSchema")
+	if fi == nil {
+		return
+	}
+	info := fi.Pkg.TypesInfo
+	pm := parentMap(fi.Decl.Body)
+	nThanos, nProm, bad := 0, 0, ""
+	ast.Inspect(fi.Decl.Body, func(n ast.Node) bool {
+		ret, ok := n.(*ast.ReturnStmt)
+		if !ok || len(ret.Results) != 1 {
+			return true
+		}
+		k := constObj(info, ret.Results[0])
+		if k == nil {
+			bad = "returns a non-constant " + exprStr(ret.Results[0])
+			return true
+		}
+		switch k.Name() {
+		case "ThanosSchema":
+			nThanos++
+			okGuard := false
+			for _, a := range lexicalGuards(pm, ret, fi.Decl.Body) {
+				be, isBin := ast.Unparen(a.E).(*ast.BinaryExpr)
+				if !isBin || a.Tag != nil {
+					if a.Tag != nil && a.Truth {
+						if kk := constObj(info, a.E); kk != nil && kk.Name() == "SchemaThanos" {
+							okGuard = true
+						}
+					}
+					continue
+				}
+				if be.Op == token.EQL && a.Truth {
+					for _, side := range []ast.Expr{be.X, be.Y} {
+						if kk := constObj(info, side); kk != nil && kk.Name() == "SchemaThanos" {
+							okGuard = true
+						}
+					}
+				}
+			}
+			if !okGuard {
+				bad = "ThanosSchema is selected without the test `word == config.SchemaThanos`"
+			}
+		case "PrometheusSchema":
+			nProm++
+		}
+		return true
+	})
+	c.Check(bad == "" && nThanos == 1 && nProm >= 1, "C01-R5", "parseSchema:Thanos schema only for the configured word `thanos`", fi.Decl.Pos(), "everything else is the Prometheus schema",
+		"the parser schema is chosen differently ("+bad+"): with the default (empty) setting files are parsed with the Thanos schema, which accepts `partial_response_strategy`, a key Prometheus rejects as unknown")
 }
